@@ -77,7 +77,9 @@ def run_case(case, ctx):
     try:
         _run_case(case, ctx)
     finally:
-        ctx.mon("M1.asm-post", asmmon.COUNTS["M1"] - m0)
+        n = asmmon.COUNTS["M1"] - m0
+        ctx.mon("M1.asm-post", n)
+        ctx.evaluations += max(0, n - 2)          # one evaluation per (base, variant) pair actually assembled
 
 
 def _run_case(case, ctx):
